@@ -95,11 +95,8 @@ class QfixedImp(float, Qtype):
 
     @classmethod
     def comparable(cls, other_type=None) -> bool:
-        return (
-            other_type == cls
-            or issubclass(other_type, QintImp)
-            or issubclass(other_type, QfixedImp)
-        )
+        # A Qint has another bit layout: it is not comparable with a Qfixed
+        return other_type == cls or issubclass(other_type, QfixedImp)
 
     @classmethod
     def const(cls, v: float) -> TExp:
@@ -295,6 +292,11 @@ class QfixedImp(float, Qtype):
             top = tleft
             tconst = tright
         else:
+            raise Exception(
+                "Qfixed mul works only between a Qfixed and an integer constant"
+            )
+
+        if not cls.is_const(tconst):
             raise Exception(
                 "Qfixed mul works only between a Qfixed and an integer constant"
             )
